@@ -234,6 +234,11 @@ impl<'a> Ingestion<'a> {
 
         if self.last_key.is_none() {
             log::trace!("No data written to Ingestion, returning early");
+
+            // NOTE: The writer has eagerly created a table file,
+            // finishing an empty writer removes it again
+            self.writer.finish()?;
+
             return Ok(());
         }
 
